@@ -79,10 +79,21 @@ def h_rendezvous(ctx, plan):
           raise Boom()
       cb.__name__ = 'cb%d' % w
       waiters[w] = (deps, beh)
+      # the callable itself is rotated over plain function / functools.partial / callable object / bound method of a builtin container
+      kind = (2 * i + w) % 4
+      kwn = {}
+      if kind == 1:
+        import functools
+        cb = functools.partial(cb); kwn = dict(name='partial%d' % w)
+      elif kind == 2:
+        class Callable(object):
+          def __init__(self, f): self.f = f
+          def __call__(self): return self.f()
+        cb = Callable(cb); kwn = dict(name='callable%d' % w)
       form = (i + w) % 3                      # the three accepted argument forms, rotated over positions
-      if form == 0: core.call_when_ready(cb, deps)
-      elif form == 1: core.call_when_ready(cb, tuple(deps) if deps else [])
-      else: core.call_when_ready(cb, deps[0] if len(deps) == 1 else set(deps))
+      if form == 0: core.call_when_ready(cb, deps, **kwn)
+      elif form == 1: core.call_when_ready(cb, tuple(deps) if deps else [], **kwn)
+      else: core.call_when_ready(cb, deps[0] if len(deps) == 1 else set(deps), **kwn)
     elif op == 'L':
       comp = NAMES[int(ctx.int('lname%d' % i, 0, 2))]
       hits = []
